@@ -293,6 +293,27 @@ theorem rawRun_pending (hdr : Bytes) (bodyLen : Int) (seg0 : Bytes) (segs : List
     (RawSt.run hdr bodyLen seg0 segs).pending = [] := by
   simp [RawSt.run, RawSt.moveAll]
 
+theorem rawFold_reqlen (segs : List Bytes) : ∀ st : RawSt,
+    (segs.foldl RawSt.arrive st).reqlen = st.reqlen := by
+  induction segs with
+  | nil => intro st; rfl
+  | cons s tl ih => intro st; simp only [List.foldl_cons]; rw [ih]; simp [RawSt.arrive, RawSt.moveAll]
+
+/-- the gateway's expected request length equals what is queued once the announced body arrived -/
+theorem rawRun_reqlen (hdr : Bytes) (seg0 : Bytes) (segs : List Bytes) :
+    (RawSt.run hdr (((seg0 :: segs).flatten.length : Nat) : Int) seg0 segs).reqlen =
+      ((RawSt.run hdr (((seg0 :: segs).flatten.length : Nat) : Int) seg0 segs).out.length : Int) := by
+  rw [rawRun_out]
+  simp only [RawSt.run, RawSt.moveAll, rawFold_reqlen]
+  unfold RawSt.startBody
+  generalize (seg0 :: segs).flatten = body
+  by_cases hz : ((body.length : Nat) : Int) = 0
+  · have : body.length = 0 := by omega
+    simp [this]
+  · have hp : ((body.length : Nat) : Int) > 0 := by omega
+    simp only [ne_eq, hz, not_false_eq_true, ↓reduceIte, hp, List.length_append]
+    push_cast; rfl
+
 /-! ### envp block of mod_cgi -/
 
 theorem envpDecode_encode (env : List (Bytes × Bytes))
